@@ -109,7 +109,7 @@ func c07Trans(c *Ctx, pre *Node, st Step, res *Result, post *State) ([]Violation
 func checkC07(e *RunEnv) *CheckResult {
 	names := []string{"test/x", "test/y", "test.c", "test-data", "test0", "t", "test/s/z", "test/s/w", "tests/w"}
 	spec := &Spec{
-		Seeds: []Seed{{"S0", seedS0()}, {"dir-unstaged", append(seedS0(), Write("test/x", v1("test/x")), Write("t", v1("t")), Run("add", "test", "t"), Run("commit", "-m", "c1"), Run("rm", "test/x"))}, {"S1-one-file", append(seedS0(), Write("t", v1("t")), Run("add", "t"), Run("commit", "-m", "c1"))}, {"S1-six-names", append(seedS0(), Write("test/x", v1("test/x")), Write("test/y", v1("test/y")), Write("test.c", v1("test.c")),
+		Seeds: []Seed{{"S0", seedS0()}, {"dir-unstaged", append(seedS0(), Write("test/x", v1("test/x")), Write("t", v1("t")), Run("add", "test", "t"), Run("commit", "-m", "c1"), Run("rm", "test/x"))}, {"twin-content", append(seedS0(), Write("test/x", "same bytes\n"), Write("test/y", "same bytes\n"), Write("t", v1("t")), Run("add", "test/x", "t"), Run("commit", "-m", "c1 holds test/x; test/y with the same bytes is on disk, untracked"))}, {"S1-one-file", append(seedS0(), Write("t", v1("t")), Run("add", "t"), Run("commit", "-m", "c1"))}, {"S1-six-names", append(seedS0(), Write("test/x", v1("test/x")), Write("test/y", v1("test/y")), Write("test.c", v1("test.c")),
 			Write("test-data", v1("test-data")), Write("test0", v1("test0")), Write("t", v1("t")), Write("test/s/z", v1("test/s/z")), Write("tests/w", v1("tests/w")), Run("add", "test", "test.c", "test-data", "test0", "t", "tests"), Run("commit", "-m", "c1"))}},
 		Depth: e.depth(3, 6),
 		Steps: func(n *Node) []Step {
